@@ -466,7 +466,16 @@ func (g *PG) builtinCall(sc *scope, ty Ty, depth int) Val {
 			return Call(op, g.args(sc, depth, nums(0, 4, TyNum)...)...)
 		}
 	case TyStr:
-		switch op := pick("to-string", "concat", "format", "slice"); op {
+		switch op := pick("to-string", "concat", "format", "slice", "format-string", "format-string"); op {
+		case "format-string":
+			g.stat("format-string")
+			f := pick("{}", "{} and {}", "{0}{1}{0}", "{{x}} {}", "{1}", "{} {0}", "a}b", "{", "{a}", "{ } / {  }", "{ 1 }-{0}", "no braces", "}}{{", "{-1}", "{}{}{}")
+			n := g.n(0, 3, "nvals")
+			args := []Val{Str(f)}
+			for i := 0; i < n; i++ {
+				args = append(args, g.Expr(sc, Ty(g.n(0, 8, "fmtty")), depth-1))
+			}
+			return Call("format-string", args...)
 		case "to-string":
 			return Call("to-string", g.args(sc, depth, Ty(rapid.SampledFrom([]Ty{TyNum, TyStr, TySym, TyInt}).Draw(g.t, "tostr")))...)
 		case "concat":
@@ -589,7 +598,30 @@ func (g *PG) builtinCall(sc *scope, ty Ty, depth int) Val {
 		}
 		return g.literal(TySym)
 	default:
-		switch pick("get", "identity", "car", "nth", "aref", "if-any", "typed", "combinator", "combinator") {
+		switch pick("get", "identity", "car", "nth", "aref", "if-any", "typed", "combinator", "combinator", "bytes", "get-default", "curry") {
+		case "bytes":
+			g.stat("bytes")
+			b := Call("to-bytes", g.strLit())
+			switch g.n(0, 5, "bytesop") {
+			case 0:
+				return Call("append-bytes", b, rapid.SampledFrom([]Val{Str("xy"), QL(I(1), I(255)), QL(I(256)), Call("to-bytes", Str("z")), I(3)}).Draw(g.t, "extra"))
+			case 1:
+				return Call("concat", QS("bytes"), b, g.strLit(), QL(I(65)))
+			case 2:
+				return Call("slice", QS(pick("bytes", "list", "string", "vector")), b, I(int64(g.n(0, 2, "i"))), I(int64(g.n(0, 3, "j"))))
+			case 3:
+				return Call("length", b)
+			case 4:
+				return Call("to-string", b)
+			default:
+				return Call("append", QS("bytes"), b, I(int64(g.n(-1, 300, "byte"))))
+			}
+		case "get-default":
+			g.stat("get-default")
+			return L(S("get-default"), g.Expr(sc, TyMap, depth-1), g.keyLit(), g.probe(g.Expr(sc, TyInt, depth-1)))
+		case "curry":
+			g.stat("curry-function")
+			return L(L(S("curry-function"), S(pick("+", "list", "-", "max")), g.Expr(sc, TyInt, depth-1)), g.Expr(sc, TyInt, depth-1), g.Expr(sc, TyInt, depth-1))
 		case "combinator":
 			g.stat("combinator")
 			switch g.n(0, 7, "comb") {
